@@ -437,6 +437,9 @@ pub fn generate(seed: u64, flavor: &str) -> RunSpec {
     // various orders, then many again (pools / free lists of matcher state have depths)
     let swarm = !cold_flavor && !storm && rng.chance(6, 100);
     let mut scripts: Vec<Vec<Op>> = Vec::new();
+    // iterators handed to a thread (only effective when the iterator type is Send): the
+    // receiver gets matching take + poll operations
+    let mut pending_takes: Vec<usize> = vec![0; threads];
     for t in 0..threads {
         let mut ops: Vec<Op> = Vec::new();
         if swarm {
@@ -609,6 +612,26 @@ pub fn generate(seed: u64, flavor: &str) -> RunSpec {
                     }
                 }
                 98 => Op::DebugFmt { slot },
+                97 if threads >= 2 && any_open && rng.chance(60, 100) => {
+                    let cands: Vec<usize> = (0..NORMAL_ITERS).filter(|&k| open[k]).collect();
+                    let it = *rng.pick(&cands);
+                    open[it] = false;
+                    let mut to = rng.below(threads);
+                    if to == t {
+                        to = (to + 1) % threads;
+                    }
+                    pending_takes[to] += 1;
+                    Op::GiveIter { it, to }
+                }
+                96 if threads >= 2 && rng.chance(60, 100) => {
+                    let it = rng.below(NORMAL_ITERS);
+                    open[it] = true;
+                    ops.push(Op::TakeIter { it });
+                    Op::Next {
+                        it,
+                        n: rng.range(1, 3),
+                    }
+                }
                 99 if rng.chance(50, 100) => {
                     let input = pick_input(&mut rng, fam, &fams);
                     if rng.chance(50, 100) {
@@ -677,6 +700,20 @@ pub fn generate(seed: u64, flavor: &str) -> RunSpec {
         }
         let _ = open_slot;
         scripts.push(ops);
+    }
+    for (t, n) in pending_takes.iter().enumerate() {
+        for _ in 0..*n {
+            let it = rng.below(NORMAL_ITERS);
+            scripts[t].push(Op::TakeIter { it });
+            scripts[t].push(if rng.chance(50, 100) {
+                Op::Drain { it }
+            } else {
+                Op::Next {
+                    it,
+                    n: rng.range(1, 3),
+                }
+            });
+        }
     }
 
     if wide {
